@@ -5,6 +5,7 @@ CONSTANTS
   Extras = {}
   Matrix = "code"
   ElseKey = FALSE
+  NameKeys = "named"
   Unannotated = TRUE
   Emit = FALSE
 POSTCONDITION Consumed
